@@ -44,16 +44,16 @@ def families(tier, which=("any", "kwarg", "digits", "octal", "words", "long")):
                 c2 = sym_char()
                 yield ("longname%d" % n, ["-name " + "x" * n, c2, "z -fprint " + "f" * n, c2], [char_valid(c2), c2 != 32, c2 != 9, c2 != 10, c2 != 13, c2 != 41, c2 != 39, c2 != 34])
     if "any" in which:
-        for L in range(0, (4 if q else 6) + 1):
+        for L in range(0, (4 if q else 5) + 1):        # 6 arbitrary characters: path explosion in the escaping loops (measured)
             yield ("any%d" % L, anychars(L) if L else [""], [])
     if "kwarg" in which:
         for kw in ALL_ARG_KW:
-            for k in ((0, 2) if q else (0, 1, 2, 3, 4)):
+            for k in ((0, 2) if q else (0, 1, 2, 3)):
                 yield ("%s+%d" % (kw, k), [kw + " "] + anychars(k), [])
         for kw in ("-fprintf", "-xattr-match"):
             for k in ((1,) if q else (1, 2, 3)):
                 yield ("%s a +%d" % (kw, k), [kw + " a "] + anychars(k), [])
-        for k in ((1, 2) if q else (1, 2, 3, 4, 5)):
+        for k in ((1, 2) if q else (1, 2, 3, 4)):
             cs = anychars(k)
             yield ("-printf'%d" % k, ["-printf '"] + cs + ["'"], [c != 39 for c in cs])
     if "digits" in which:
